@@ -31,6 +31,7 @@ package collect
 //                                          flight), call MockConfig.Reload(), wait until the monitor
 //                                          has run reloadConfigs and EVERY worker has handled its
 //                                          reload signal, quiesce
+//   e.DryRunAt(step), e.DryRunOnThroughout(a,b)  DryRun setting in force per step (Reload may toggle MockConfig.DryRun)
 //   e.Eject(worker, bytes)                 the sendEarly message checkAlloc would send (worker<0: all)
 //   e.Flush()                              bounded progress: TraceTimeout+SendDelay+backlog ticks
 //   e.Inspect(func(*E1View))               run fn while ALL workers are parked between loop
@@ -480,6 +481,7 @@ type E1 struct {
 	failed  string
 	stopped bool
 	hooks   []func(*E1View)
+	dryLog  []e1DryAt // DryRun value and the step of the reload that set it (entry 0: start value)
 	parked  []chan struct{}
 }
 
@@ -539,6 +541,7 @@ func e1Start(tb testing.TB, c E1Config) *E1 {
 	e := &E1{tb: tb, Cfg: mc, cfgW: &e1Config{MockConfig: mc}, Stress: &E1Stress{}, met: newE1Metrics(), health: &e1Health{},
 		peer: &e1PeerSink{}, clock: clockwork.NewFakeClockAt(e1Epoch), t0: e1Epoch, tick: time.Duration(c.Traces.SendTicker)}
 	e.cclock = &e1Clock{FakeClock: e.clock}
+	e.dryLog = []e1DryAt{{0, c.DryRun}}
 	e.rec = &e1Recorder{e: e, sentinel: make(chan int64, 4)}
 	e.sf = &sample.SamplerFactory{Config: e.cfgW, Metrics: e.met, Logger: &logger.NullLogger{}}
 	if err := e.sf.Start(); err != nil {
@@ -636,6 +639,46 @@ func (e *E1) Added() []E1Added            { return e.added }
 func (e *E1) WorkerOf(traceID string) int { return e1adWorkerFor(e.coll, traceID) }
 func (e *E1) Counter(name string) int64   { return e.met.counter(name) }
 func (e *E1) Config() config.Config       { return e.cfgW }
+
+type e1DryAt struct {
+	step int
+	on   bool
+}
+
+// DryRunAt reports the DryRun setting in force during the given step. A reload that toggles it is a step of
+// its own in which nothing is forwarded; the new value applies to every later step.
+func (e *E1) DryRunAt(step int) bool {
+	on := e.dryLog[0].on
+	for _, d := range e.dryLog[1:] {
+		if d.step < step {
+			on = d.on
+		}
+	}
+	return on
+}
+
+// DryRunOnThroughout reports whether DryRun was on during every step from..to (inclusive).
+func (e *E1) DryRunOnThroughout(from, to int) bool {
+	if !e.DryRunAt(from) {
+		return false
+	}
+	for _, d := range e.dryLog[1:] {
+		if d.step >= from && d.step < to && !d.on {
+			return false
+		}
+	}
+	return true
+}
+
+// DryRunEverOn reports whether DryRun was on at any time so far.
+func (e *E1) DryRunEverOn() bool {
+	for _, d := range e.dryLog {
+		if d.on {
+			return true
+		}
+	}
+	return false
+}
 
 // E1Tick is one processed send tick: the step it was processed in and its virtual instant.
 type E1Tick struct {
@@ -1015,7 +1058,11 @@ func (e *E1) Reload(what string, mutate func(*config.MockConfig)) {
 	if mutate != nil {
 		e.Cfg.Mux.Lock()
 		mutate(e.Cfg)
+		dry := e.Cfg.DryRun
 		e.Cfg.Mux.Unlock()
+		if dry != e.dryLog[len(e.dryLog)-1].on {
+			e.dryLog = append(e.dryLog, e1DryAt{e.Step(), dry})
+		}
 	}
 	if err := e.Cfg.Reload(); err != nil {
 		e.fail("MockConfig.Reload: " + err.Error())
@@ -1185,7 +1232,7 @@ func (e *E1) Finalize() *E1Final {
 	// cannot be kept records (nothing forwarded; or dry run) until they answer, with a wall-clock bound
 	// whose expiry is only ever reported as FilterLag (never as a verdict by itself). Probing an id that
 	// is not in the kept LRU does not change any recency.
-	dry := e.Cfg.GetIsDryRun()
+	dry := e.DryRunEverOn()
 	bound := e1FilterLagBound
 	if e1FilterLagSeen.Load() {
 		bound = 20 * time.Millisecond
@@ -1389,6 +1436,7 @@ type E1Profile struct {
 	PredictableOnly bool // only samplers with a known outcome
 	SmallKept       bool // kept-decision capacity small enough that records can age out
 	StressSpans     bool // some first spans go through ProcessSpanImmediately
+	ToggleDryRun    bool // sampler reloads are replaced by reloads that switch DryRun on/off (sampler definitions stay fixed)
 	MaxSteps        int
 }
 
@@ -1517,9 +1565,17 @@ func e1GenHistory(rng *verifkit.Rand, p E1Profile) *E1History {
 			d := verifkit.Pick(rng, 0, tick/2, tick, tick, 3*tick, sd, sd+tick, tt-time.Nanosecond, tt, tt+time.Nanosecond, tt+tick)
 			h.Steps = append(h.Steps, e1Step{Op: "advance", Dur: d})
 		case k < 88:
-			h.Steps = append(h.Steps, e1Step{Op: "reload-sampler", Env: envs[rng.Intn(len(envs))], Def: e1GenSampler(rng, p.PredictableOnly)})
+			if p.ToggleDryRun {
+				h.Steps = append(h.Steps, e1Step{Op: "reload-dryrun"})
+			} else {
+				h.Steps = append(h.Steps, e1Step{Op: "reload-sampler", Env: envs[rng.Intn(len(envs))], Def: e1GenSampler(rng, p.PredictableOnly)})
+			}
 		case k < 90:
-			h.Steps = append(h.Steps, e1Step{Op: "reload-flags", Flag: verifkit.Pick(rng, "reason", "spancount", "attrs")})
+			if p.ToggleDryRun && rng.Bool() {
+				h.Steps = append(h.Steps, e1Step{Op: "reload-dryrun"})
+			} else {
+				h.Steps = append(h.Steps, e1Step{Op: "reload-flags", Flag: verifkit.Pick(rng, "reason", "spancount", "attrs")})
+			}
 		case k < 91:
 			h.Steps = append(h.Steps, e1Step{Op: "reload-same"})
 		case k < 94:
@@ -1595,6 +1651,8 @@ func (h *E1History) Run(tb testing.TB, onStart func(e *E1), onStep func(e *E1, s
 					}
 				}
 			})
+		case "reload-dryrun":
+			e.Reload("toggle DryRun", func(m *config.MockConfig) { m.DryRun = !m.DryRun })
 		case "reload-same":
 			e.Reload("unchanged", nil)
 		case "resize":
